@@ -56,7 +56,7 @@ type kvSUT struct {
 
 func init() { core.Register("KVStore", func() core.SUT { return &kvSUT{} }) }
 
-func cp(b []byte) []byte { return append(make([]byte, 0, len(b)+1), b...) }
+func cp(b []byte) []byte { return append(make([]byte, 0, len(b)+8), b...) }
 
 func scribble(b []byte) {
 	for i := range b {
@@ -118,10 +118,12 @@ func (s *kvSUT) Reset(cfg core.Ev) {
 		panic("unknown wrap")
 	}
 	s.views[1] = s.root
-	s.views[2] = must(s.root.WithRealm([]byte{0}))
-	s.views[3] = must(s.views[2].WithExtendedRealm([]byte{0}))
-	s.views[4] = must(s.views[2].WithExtendedRealm([]byte{255}))
-	s.views[5] = must(s.views[3].WithRealm([]byte{1}))
+	// realm arguments are slices with spare capacity (cp), as a caller's []byte("...") conversion or append result has:
+	// sibling views made from one parent must not end up sharing the parent's backing array
+	s.views[2] = must(s.root.WithRealm(cp([]byte{0})))
+	s.views[3] = must(s.views[2].WithExtendedRealm(cp([]byte{0})))
+	s.views[4] = must(s.views[2].WithExtendedRealm(cp([]byte{255})))
+	s.views[5] = must(s.views[3].WithRealm(cp([]byte{1})))
 	for i := range s.batches {
 		s.batches[i] = nil
 	}
